@@ -73,7 +73,7 @@ def eval (F : Facts) : List String → Option String
              F.broadcast.closeDeferredAfterOpen then "restored" else "unspecified")
   | ["conc", bind, _, calls] => do
     let n ← (kv calls).toNat?
-    let disc := if kv bind = "0" then " discovered=6" else ""
+    let disc := if kv bind = "0" then " discovered=4..6" else ""
     some (if F.sharedGuarded then s!"own={n} crossed=0 err=0 races=0{disc}" else "unspecified")
   | ["slow-connect", _, tT, cT] => do
     -- a TCP controller whose handshake completes `connect` ms into the call and which then never answers
